@@ -342,7 +342,15 @@ def gen_spec(r, repo, size=None):
                       for _ in range(r.randint(0, n_o))]
     spec["dynamic"] = []
     for _ in range(r.randint(0, n_o)):
-        d = {"id": ids.new(), "type": r.choice(dy_types), "shape": gen_shape(r, group_ok=False),
+        dshape = gen_shape(r, group_ok=False)
+        # the shape of a dynamic obstacle lives in the obstacle's frame: usually centred and unrotated (then the writer omits
+        # orientation / center), sometimes rotated and / or off-centre (then it writes them)
+        x = r.random()
+        if "c" in dshape and x < 0.5:
+            dshape["c"] = [0.0, 0.0]
+        if "o" in dshape and (x < 0.35 or 0.5 <= x < 0.65):
+            dshape["o"] = r.choice([0.0, 0, -0.0])
+        d = {"id": ids.new(), "type": r.choice(dy_types), "shape": dshape,
              "init": gen_state(r, 0, "InitialState", True, uncertain_ok=False, schema_state=schema_state),
              "sig0": gen_signal(r, 0) if r.random() < 0.4 else None, "series": None}
         if r.random() < 0.65:
